@@ -177,7 +177,10 @@ def reversibility(ctx, idx, rng):
     # mechanism classifier (input structure only): a bond larger than the Schmidt rank it carries
     ranks = [1] + [int(np.sum(np.linalg.svd(v0.reshape(d ** c, -1), compute_uv=False) > 1e-10)) for c in range(1, L)] + [1]
     deficient = ranks != list(psi.bond_dims)
-    ctx.case(('reversibility', src, f'L{L}', prof, dtk, f'steps{n}', 'rank-deficient-bond' if deficient else 'full-rank-bonds', kind + '-state'), sample={'model': src, 'L': L, 'qD': psi.qD, 'dt': dt, 'steps': n},
+    # finer structure classifier (quantum numbers only): does the first sweep shrink a bond, and is the shrunk bond then saturated from the left?
+    reduced, unsat = refs.first_sweep_reduction(psi.qd, psi.qD)
+    cls = 'full-rank-bonds' if not deficient else ('oversize-bond-saturated-after-reduction' if (reduced and not unsat) else 'rank-deficient-bond')
+    ctx.case(('reversibility', src, f'L{L}', prof, dtk, f'steps{n}', cls, kind + '-state'), sample={'model': src, 'L': L, 'qD': psi.qD, 'dt': dt, 'steps': n},
              info={'model': src, 'L': L, 'qd': H.qd, 'qD': psi.qD, 'A': psi.A, 'H_A': H.A, 'H_qD': H.qD, 'dt': dt, 'steps': n})
     detail = ctx.cur_info
     p = copy.deepcopy(psi)
@@ -187,12 +190,18 @@ def reversibility(ctx, idx, rng):
     dev = float(np.linalg.norm(back - v0))
     if not deficient:
         ctx.close('reversible', dev, 1e-9, 'dt then -dt (times the reported norm) does not return the initial state', detail)
+    elif cls == 'oversize-bond-saturated-after-reduction':
+        # over-complete bonds that the first sweep shrinks to a bond saturated from the left in every charge sector (all charge-free over-complete
+        # profiles): the local steps are exact on both sides of the shrunk bond, the sweep stays reversible
+        ctx.close('reversible[oversize-bond-saturated-after-reduction]', dev, 1e-9,
+                  'dt then -dt does not return the initial state although every bond shrunk by the first sweep ends up saturated from the left', detail)
     else:
         ctx.close('reversible[rank-deficient]', dev, 0.05, 'dt then -dt is far from the initial state even for a rank-deficient start', detail)
         if dev > 1e-9:
             ctx.known('C09/rank-deficient-bond-irreversibility',
-                      'single-site TDVP started from a state with a bond larger than the Schmidt rank it carries (over-complete or rank-deficient '
-                      'bond) is not time-reversible: the first sweep reduces the manifold, so the sweep is no longer symmetric', detail)
+                      'single-site TDVP started from a state with a bond larger than the Schmidt rank it carries, which the first sweep shrinks to a bond that is '
+                      'NOT saturated from the left in every charge sector (or a rank-deficient bond of legal size), is not time-reversible: the first sweep '
+                      'reduces the manifold, so the sweep is no longer symmetric', detail)
     ctx.close('first-return==1', abs(float(r1) - 1), 1e-10, 'first call on a normalised state must return 1', detail)
     if dtk == 'imag':
         ctx.close('second-return==1-for-imaginary-dt', abs(float(r2) - 1), 1e-10, 'norm reported by the second call for imaginary dt', detail)
@@ -209,7 +218,7 @@ SPEC = {
              'charge blocks) must be exact to 1e-9; class M (sector-complete, mixed saturation) is the known finding and must still obey the third-order '
              'bound n (|dt| ||H||)^3 (the halving ratio is recorded). Reversibility: single-site, any bond profile (random / all-one / maximal / over-complete), any complex dt, '
              'n steps dt then n steps -dt. distinct = (integrator, model, L, class, dt kind, steps, profile).'),
-    'deciding': ['exact-after-inplace-change-of-H[twosite]', 'exact-on-complete-manifold[singlesite]', 'exact-on-complete-manifold[twosite]', 'reversible', 'second-return==1-for-imaginary-dt'],
+    'deciding': ['exact-after-inplace-change-of-H[twosite]', 'exact-on-complete-manifold[singlesite]', 'exact-on-complete-manifold[twosite]', 'reversible', 'reversible[oversize-bond-saturated-after-reduction]', 'second-return==1-for-imaginary-dt'],
     'workloads': [
         Workload('exactness', EX_Q, quick=len(QUICK_CASES), thorough=0, exhaustive={'space': 'all total-charge sectors of every (model, L<=4)'}),
         Workload('exactness-all', EX_T, quick=0, thorough=len(CASES) * 40, exhaustive={'space': 'all total-charge sectors of every (model, L) within dense reach, 6 repetitions with rotating dt kinds'}),
